@@ -202,48 +202,85 @@ func latchDiscipline(c *Ctx, rule string, scope []*ssa.Function, latches map[*ty
 	}
 }
 
-// conversions: comparisons of an error with a non-nil sentinel whose true edge can reach a nil-error return.
+// sentinelTest recognises "err == Sentinel" / "err != Sentinel" and errors.Is(err, Sentinel): the error value tested,
+// the sentinel variable, and the If edges on which the error IS the sentinel.
+func sentinelTest(in ssa.Instruction) (ev ssa.Value, sentinel *ssa.Global, eqEdges []edge, ok bool) {
+	globalOf := func(v ssa.Value) *ssa.Global {
+		if l, ok := v.(*ssa.UnOp); ok && l.Op == token.MUL {
+			if g, ok := l.X.(*ssa.Global); ok {
+				return g
+			}
+		}
+		return nil
+	}
+	var res ssa.Value
+	neg := false
+	switch x := in.(type) {
+	case *ssa.BinOp:
+		if (x.Op != token.EQL && x.Op != token.NEQ) || !isErrorType(x.X.Type()) {
+			return nil, nil, nil, false
+		}
+		if g := globalOf(x.Y); g != nil {
+			ev, sentinel = x.X, g
+		} else if g := globalOf(x.X); g != nil {
+			ev, sentinel = x.Y, g
+		} else {
+			return nil, nil, nil, false
+		}
+		res, neg = x, x.Op == token.NEQ
+	case *ssa.Call:
+		if calleeQual(x) != "errors.Is" || len(x.Call.Args) != 2 {
+			return nil, nil, nil, false
+		}
+		g := globalOf(x.Call.Args[1])
+		if g == nil {
+			return nil, nil, nil, false
+		}
+		ev, sentinel, res = x.Call.Args[0], g, x
+	default:
+		return nil, nil, nil, false
+	}
+	var walk func(v ssa.Value, neg bool, d int)
+	walk = func(v ssa.Value, neg bool, d int) {
+		if d > 3 {
+			return
+		}
+		for _, u := range liveRefs(v) {
+			switch y := u.(type) {
+			case *ssa.If:
+				te, fe := ifEdges(y)
+				if neg {
+					eqEdges = append(eqEdges, fe)
+				} else {
+					eqEdges = append(eqEdges, te)
+				}
+			case *ssa.UnOp:
+				if y.Op == token.NOT {
+					walk(y, !neg, d+1)
+				}
+			}
+		}
+	}
+	walk(res, neg, 0)
+	return ev, sentinel, eqEdges, true
+}
+
+// conversions: tests of an error against a non-nil sentinel whose "is the sentinel" edge can reach a nil-error return.
 func errConversions(p *Program, fn *ssa.Function) map[string]string {
 	out := map[string]string{}
 	for _, b := range fn.Blocks {
 		for _, in := range b.Instrs {
-			cmp, ok := in.(*ssa.BinOp)
-			if !ok || (cmp.Op != token.EQL && cmp.Op != token.NEQ) || !isErrorType(cmp.X.Type()) {
+			ev, sentinel, eqEdges, ok := sentinelTest(in)
+			if !ok {
 				continue
 			}
-			var sentinel *ssa.Global
-			for _, o := range []ssa.Value{cmp.X, cmp.Y} {
-				if l, ok := o.(*ssa.UnOp); ok && l.Op == token.MUL {
-					if g, ok := l.X.(*ssa.Global); ok {
-						sentinel = g
-					}
-				}
-			}
-			if sentinel == nil {
-				continue
-			}
-			for _, u := range liveRefs(cmp) {
-				iff, ok := u.(*ssa.If)
-				if !ok {
-					continue
-				}
-				te, fe := ifEdges(iff)
-				eqEdge := te
-				if cmp.Op == token.NEQ {
-					eqEdge = fe
-				}
-				ev := cmp.X
-				if l, ok := ev.(*ssa.UnOp); ok {
-					if _, isG := l.X.(*ssa.Global); isG {
-						ev = cmp.Y
-					}
-				}
+			for _, eqEdge := range eqEdges {
 				eq := errEq(fn, ev)
 				region := nonNilRegion(eqEdge, eq)
 				for _, r := range allReturns(fn) {
 					if region[r.Block()] && len(r.Results) > 0 && isErrorType(retVal(r, len(r.Results)-1).Type()) &&
 						!definitelyNonNil(retVal(r, len(r.Results)-1), eq, region, eqEdge, map[ssa.Value]bool{}) {
-						out[sentinel.Pkg.Pkg.Name()+"."+sentinel.Name()] = p.Pos(cmp.Pos())
+						out[sentinel.Pkg.Pkg.Name()+"."+sentinel.Name()] = p.Pos(in.Pos())
 					}
 				}
 			}
@@ -260,7 +297,8 @@ func checkC10(c *Ctx) {
 	c.Rule("C10.1", "write path: no fallible call reachable from (*SMF).WriteTo drops or swallows its error (discard only into in-memory destinations; every return reachable from a non-nil edge is definitely non-nil; latches are tested)", 8)
 	c.Rule("C10.2", "size accounting: the destination io.Writer flows only into the counting wrapper, whose Write adds the accepted count; WriteTo returns a load of that counter; a nil error is returned only after the normal exit of the track loop", 3)
 	c.Rule("C10.3", "read path: same two sub-rules for everything reachable from smf.ReadFrom; conversions of a non-nil error to success are confined to {io.EOF, ErrFinished} in ReadFrom", 10)
-	c.Rule("C10.4", "WriteFile: the error of WriteTo reaches both the os.Remove decision and the returned error", 1)
+	c.Rule("C10.4", "WriteFile: abstract run with creation, WriteTo and closing each succeeding or failing — a failed WriteTo always ends in a non-nil error with the partial file removed; a nil result only after a successful WriteTo, and then the file is not removed", 1)
+	c.Rule("C10.5", "whole-file write simulation with a destination that may fail at EVERY Write (error or short count): every outcome in which some Write failed returns a definite error, however the error travels (result, latch, deferred assignment); the outcomes without failure return nil", 1)
 
 	writeTo := p.Method("smf", "SMF", "WriteTo")
 	readFrom := p.Func("smf", "ReadFrom")
@@ -369,6 +407,8 @@ func checkC10(c *Ctx) {
 		}
 	}
 
+	// ---- C10.5
+	runWriteToSim(c, "", "", "", "", "", "C10.5")
 	// ---- C10.4
 	c.Fn(FuncName(writeFile))
 	found := false
@@ -421,7 +461,9 @@ func checkC10(c *Ctx) {
 				}
 			}
 		}
-		c.Check(ok && rm, "C10.4", "WriteFile <- WriteTo", p.Pos(s.call.Pos()), "error tested; non-nil edge removes the file and returns a non-nil error", fmt.Sprintf("WriteTo's error not fully reported by WriteFile (discarded=%v problems=%v removeOnError=%v)", d.discarded, d.problems, rm))
+		_, _ = ok, rm
+		okSim, whySim := writeFileSim(p, writeFile, writeTo)
+		c.Check(okSim, "C10.4", "WriteFile <- WriteTo", p.Pos(s.call.Pos()), "abstract run of WriteFile (creation may fail, WriteTo may fail, closing may fail): a failed WriteTo always ends in a non-nil error with the partial file removed; a nil result only after a successful WriteTo, and then the file is not removed", whySim)
 	}
 	if !found {
 		c.Unk("C10.4", "WriteFile <- WriteTo", "-", "WriteFile does not call WriteTo")
@@ -621,4 +663,115 @@ func countedReadDiscardOK(p *Program, fn *ssa.Function, call ssa.CallInstruction
 		return false, ""
 	}
 	return true, fmt.Sprintf("one-byte Read whose count is tested; on all %d abstract paths through a short-count edge (%d paths total, loop widened with inductive invariants) the function returns a non-nil error", short, len(outs))
+}
+
+// writeFileSim: abstract run of WriteFile. The calls that create the file, WriteTo and the calls that close / remove
+// are not analysed here: creation yields (file, nil) or (nil, error); WriteTo yields (n, nil) or (n, error); everything
+// else on the file yields an unknown error. Decided on the outcomes, so it does not matter how the error travels
+// (one variable re-used for the close error, early returns, a deferred close, helpers).
+func writeFileSim(p *Program, writeFile, writeTo *ssa.Function) (bool, string) {
+	ex := NewExec(p)
+	ex.CallHook = func(ex *Exec, st *State, fr *Frame, call ssa.CallInstruction, callee *ssa.Function, args []Val) ([]callRes, bool) {
+		if callee == writeTo {
+			okSt, badSt := st, st.Clone()
+			okSt.Events = append(okSt.Events, Event{Kind: "sim:writeto-ok"})
+			badSt.Events = append(badSt.Events, Event{Kind: "sim:writeto-failed"})
+			n1 := okSt.freshInt("n", 64, true)
+			n2 := badSt.freshInt("n", 64, true)
+			return []callRes{
+				{st: okSt, ret: &TupleV{Vs: []Val{n1, nilErr()}}},
+				{st: badSt, ret: &TupleV{Vs: []Val{n2, &IfaceV{Unk: true, NonNil: true}}}},
+			}, true
+		}
+		switch callee.String() {
+		case "os.Create", "os.OpenFile", "os.CreateTemp":
+			okSt, badSt := st, st.Clone()
+			var ft types.Type
+			if res := callee.Signature.Results(); res.Len() == 2 {
+				if pt, ok := res.At(0).Type().(*types.Pointer); ok {
+					ft = pt.Elem()
+				}
+			}
+			if ft == nil {
+				return nil, false
+			}
+			f := ex.newZeroObject(okSt, ft)
+			return []callRes{
+				{st: okSt, ret: &TupleV{Vs: []Val{f, nilErr()}}},
+				{st: badSt, ret: &TupleV{Vs: []Val{&PtrV{Nil: true}, &IfaceV{Unk: true, NonNil: true}}}},
+			}, true
+		case "os.Remove":
+			st.Events = append(st.Events, Event{Kind: "sim:remove"})
+			return []callRes{{st: st, ret: &IfaceV{Unk: true}}}, true
+		}
+		return nil, false
+	}
+	st := ex.NewState()
+	recvT := writeFile.Signature.Recv()
+	if recvT == nil {
+		return false, "WriteFile is not a method"
+	}
+	pt, _ := recvT.Type().(*types.Pointer)
+	if pt == nil {
+		return false, "WriteFile receiver is not a pointer"
+	}
+	sp := ex.newZeroObject(st, pt.Elem())
+	if sv, ok := st.heap[sp.Obj].(*StructV); ok {
+		for i := 0; i < sv.T.NumFields(); i++ {
+			sv.Fields[i] = ex.topOf(st, sv.T.Field(i).Type(), "smf."+sv.T.Field(i).Name())
+		}
+	}
+	outs := ex.Call(st, writeFile, []Val{sp, ex.unknownString(st, "path")}, nil)
+	if ex.Budget || len(outs) == 0 {
+		return false, "abstract run of WriteFile did not complete"
+	}
+	nFail, nOK := 0, 0
+	for _, o := range outs {
+		if o.Panic {
+			continue // C05 / C01.8 territory; not this rule
+		}
+		wrote, failed, removed := false, false, false
+		for _, e := range o.St.Events {
+			switch e.Kind {
+			case "sim:writeto-ok":
+				wrote = true
+			case "sim:writeto-failed":
+				failed = true
+			case "sim:remove":
+				removed = true
+			}
+		}
+		ev, _ := o.Ret[len(o.Ret)-1].(*IfaceV)
+		isNil := ev != nil && ev.Nil
+		nonNil := ev != nil && !ev.Nil && (!ev.Unk || ev.NonNil)
+		switch {
+		case failed:
+			nFail++
+			if !nonNil {
+				return false, "WriteTo failed and WriteFile returns " + valString(o.Ret[len(o.Ret)-1]) + " (not a definite error) [" + outcomeWitness(o) + "]"
+			}
+			if !removed {
+				return false, "WriteTo failed and the partial file is left in place (no os.Remove on that path)"
+			}
+		case wrote:
+			nOK++
+			if isNil && removed {
+				return false, "WriteFile reports success but has removed the file"
+			}
+			if removed && !nonNil {
+				return false, "the file is removed on a path where WriteTo succeeded and no definite error is returned"
+			}
+		default:
+			if !nonNil && !isNil {
+				continue // e.g. a pre-check of the value; neither file nor write involved
+			}
+			if isNil {
+				return false, "WriteFile reports success on a path that never called WriteTo [" + outcomeWitness(o) + "]"
+			}
+		}
+	}
+	if nFail == 0 || nOK == 0 {
+		return false, fmt.Sprintf("WriteTo is not reached on both outcomes (failed=%d ok=%d)", nFail, nOK)
+	}
+	return true, ""
 }
